@@ -2947,13 +2947,12 @@ func geoRadiusByMember(n *Nodis, conn *redis.Conn, cmd redis.Command) {
 		conn.WriteError("ERR radius value is not a valid float")
 		return
 	}
-	if cmd.Options.KM > 3 {
+	switch {
+	case cmd.Options.KM > 2:
 		radius *= 1000
-	}
-	if cmd.Options.MI > 3 {
+	case cmd.Options.MI > 2:
 		radius *= 1609.34
-	}
-	if cmd.Options.FT > 3 {
+	case cmd.Options.FT > 2:
 		radius *= 0.3048
 	}
 	var count int64 = -1
@@ -2996,16 +2995,17 @@ func geoRadiusByMember(n *Nodis, conn *redis.Conn, cmd redis.Command) {
 			if cmd.Options.WITHDIST > 3 {
 				h, _ := geohash.EncodeWGS84(v.Longitude, v.Latitude)
 				dist := geohash.DistBetweenGeoHashWGS84(h, v.Hash())
-				if cmd.Options.KM > 3 {
+				// exactly one distance, in the unit of the radius (the unit follows the radius: argument 3)
+				switch {
+				case cmd.Options.KM > 2:
 					conn.WriteBulk(fmt.Sprintf("%0.4f", dist/1000))
-				}
-				if cmd.Options.MI > 3 {
+				case cmd.Options.MI > 2:
 					conn.WriteBulk(fmt.Sprintf("%0.4f", dist/1609.34))
-				}
-				if cmd.Options.FT > 3 {
+				case cmd.Options.FT > 2:
 					conn.WriteBulk(fmt.Sprintf("%0.4f", dist/0.3048))
+				default:
+					conn.WriteBulk(fmt.Sprintf("%0.4f", dist))
 				}
-				conn.WriteBulk(fmt.Sprintf("%0.4f", dist))
 			}
 			if cmd.Options.WITHHASH > 3 {
 				conn.WriteUInt64(v.Hash())
